@@ -53,7 +53,9 @@ CLAIMS["C11"] = {
     "text": "Lean theorems about the model of step()/execute(): a step on a finished machine or at the limit fails and returns the machine "
             "unchanged; below the limit it is exactly the unguarded step; every successful step advances the executed count by exactly one, keeps "
             "limit and code end, and returns continue = !finished; finish_iff; execute is iterated step and fuel never changes a finished run; with "
-            "limit N the first N steps are never refused for the limit and step N+1 is (induction over runs). Tied to execute.rs by random "
+            "limit N the first N steps are never refused for the limit and step N+1 is (induction over runs); step_rip_next: a successful step of an "
+            "instruction that is not a jump, call or return (any of the other forms of the dispatch table, no hooks) leaves RIP at next_ip "
+            "(exec_rip over the whole table; only RET signals the finish). Tied to execute.rs by random "
             "programs run step-by-step and by execute() on both sides.",
     "design_ref": "DESIGN.md section 7, C11", "note": COMMON_NOTE,
     "technique": "Lean 4 proof (stage-wise frame lemmas, induction over runs) + model-vs-code differential correspondence",
@@ -84,14 +86,14 @@ CLAIMS["C14"] = {
 CLAIMS["C17"] = {
     "text": "Lean theorems about init_stack_program_start for every argv/envp/length/layout: result memory well-formed and overlap-free, strings "
             "copied NUL-terminated into fresh areas in order, frame slot arithmetic, RSP 16-byte aligned, stack_top = RSP, requested space below "
-            "RSP up to 48 bytes padding. That popping yields argc/argv/0/envp/0 is checked by executing POPs on model and implementation.",
-    "design_ref": "DESIGN.md section 7, C17", "note": COMMON_NOTE + "frame_pops is sampled (correspondence), not proved.",
+            "RSP up to 48 bytes padding; frame_contents / frame_pops: the slots above RSP hold argc, the argv pointers (the addresses of the copies), 0, the envp pointers, 0 in this order and the load each POP performs returns them one after the other. POPs are also executed on model and implementation.",
+    "design_ref": "DESIGN.md section 7, C17", "note": COMMON_NOTE + "That the loads of the POPs succeed (the slots are readable stack memory) is observed by the correspondence run.",
     "technique": "Lean 4 proof (invariants, arithmetic by omega, bv_decide for the alignment mask) + differential correspondence executing POPs",
 }
 CLAIMS["C18"] = {
     "text": "Lean theorem trace_eq_spec: for every sequence of taken transfers the trace built by add_trace's list logic equals an independent "
             "tracer (entries in order, repeated jumps collapsed into counts, level = saturating call depth); counts add up; untaken branches leave "
-            "the trace unchanged; CALL pushes the call stack; indentation bounded. Correspondence on branchy/unbalanced programs with the three "
+            "the trace unchanged; CALL pushes and RET pops the call stack; indentation bounded. Correspondence on branchy/unbalanced programs with the three "
             "renderers invoked after every step.",
     "design_ref": "DESIGN.md section 7, C18", "note": COMMON_NOTE + "Renderers are exercised, not modelled.",
     "technique": "Lean 4 proof (fold = spec by induction with a depth invariant) + differential correspondence",
